@@ -38,7 +38,7 @@ VARIANTS = {
         lambda n: (setattr(n, 'iter', expr('_HINT_REDUCERS[bool(reductions_count):]')) or n), scope='reduce_hint'), 'C18.R1',
         'overrides are not applied to the result of an earlier reduction (an override target that is itself overridden)'),
     # ---- R2 --------------------------------------------------------------------------------------
-    'union-children-unreduced': tseeded(UN, lambda t: _raw_child(t), 'C18.R2',
+    'union-children-unreduced': tseeded(UN, lambda t: _raw_child(t), 'C18',
                                         'float inside int | float is not expanded by is_pep484_tower'),
     # ---- R3 --------------------------------------------------------------------------------------
     'tower-read-by-generator': tseeded(CMAIN, lambda t: replace_where(
